@@ -2,14 +2,15 @@ import vlib, common
 
 RULE = ("event sequences of 1..30 (quick) / ..130 distinct events with crafted shared prefixes, each inserted as single adds and under three random groupings into Add/AddBulk "
         "(one with few large bulks), two of them with close/reopen of the balloon at random call boundaries incl. before the first insert; every history digest and every "
-        "call-end hyper digest compared across plans (Go vs Go) and every snapshot compared with the Coq construction (Go vs model); plus the balloon and history runs. "
+        "call-end hyper digest compared across plans (Go vs Go) and every snapshot compared with the Coq construction (Go vs model); plus the balloon and history runs; "
+        "hyperb: the hyper tree alone (Add/AddBulk with crafted shared prefixes, existing keys, duplicates inside a bulk, reopen) - after every call the root hash, the whole HyperTable and HyperCacheTable and the cached batches on the paths of all keys compared slot by slot with the batch-level Coq model (Hyper/HyperBatch.v). "
         "distinct = (case, plan, call); non-trivial = bulk of >1 events or followed by a reopen")
 
 
 def run(v, tier, seed, replay):
     vlib.coq_stage(v, "C04")
     mism_all = []
-    for cmd in ("canon", "balloon"):
+    for cmd in ("canon", "balloon", "hyperb"):
         s, res = common.harness(v, "C04", "core", cmd, tier, seed)
         try:
             common.absorb(v, res, RULE)
@@ -17,6 +18,8 @@ def run(v, tier, seed, replay):
             # only snapshot digests (code 901 / 900) are this property's observables
             import re
             bad = re.findall(r"\((\d+)%N, 90[01]%N\)", mism)
+            if cmd == "hyperb" and mism != "[]":
+                bad = [mism]       # root hash or table content of the batch-level model differs
             if bad:
                 mism_all.append("%s: %s" % (cmd, mism[:200]))
             v.coverage.setdefault("model_vs_impl_mismatches", {})[cmd] = "[]" if not bad else mism
@@ -29,6 +32,6 @@ def run(v, tier, seed, replay):
                     dict(kind="correspondence", theorem="C04_snapshots_canonical", mismatches=mism_all, seed=seed, tier=tier), no_input=False)
     v.coverage["trusted_base"] = vlib.TRUSTED_COMMON + [
         "no hypothesis on the hash function",
-        "history insertion (pruneToInsert, insert visitor, write cache as an unbounded overlay, mutations) is modelled and proved to compute the spec root; the hyper batch/cache/store code is not modelled, it is compared with the spec construction on every snapshot",
+        "history insertion (pruneToInsert, insert visitor, write cache as an unbounded overlay, mutations) is modelled and proved to compute the spec root; the hyper batch/cache/store code is modelled (Hyper/HyperBatch.v: batches, shortcut push-down, cache/tiles/store writes, cache rebuild) and compared with the Go code table by table and with the spec construction on every snapshot; that the batch-level model computes the spec root is not proved",
         "restarts are not a model transition: the model has no volatile state, so 'restart is invisible' is checked by comparing Go runs with reopen against the model run without"]
     v.assumptions = ["events distinct for the grouping-independence of the hyper digest (as the property states)", "LRU write cache (300) never evicts an unpersisted node that is still needed"]
